@@ -272,16 +272,13 @@ func verifNeedsWaiter(c *sync.Cond, since int) {}
 // goroutine makes between the caller's earlier read and the operation (the model says whether, and
 // in which direction) is applied first.  verifCasDelta is the sum of interference per cell.
 var verifCasDeltas = map[*int32]int32{}
+var verifCasOps int
 
 func verifCAS32(p *int32, old, new int32) bool {
-	interf, up := verifBool("casInterfered@"), verifBool("casUp@")
-	if interf {
-		d := int32(-1)
-		if up {
-			d = 1
-		}
-		atomic.AddInt32(p, d)
-		verifCasDeltas[p] += d
+	verifCasOps++
+	if verifCasOps <= 1 && verifBool("casInterfered@") {
+		atomic.AddInt32(p, 1) // another call was started on the channel in between
+		verifCasDeltas[p]++
 	}
 	return atomic.CompareAndSwapInt32(p, old, new)
 }
